@@ -356,7 +356,7 @@ def check_attempt_monotone(prev: View, cur: View):
     fails = []
     for k, a in cur.attempts.items():
         bl = billed(a)
-        if a['rollup_time'] is not None and a['start_time'] is not None and a['rollup_time'] - a['start_time'] < 0:
+        if bl < 0:
             fails.append(('negative-billed', 'billed duration is never negative', f'attempt {k}: {a}'))
             break
         if a['end_time'] is not None and a['start_time'] is not None and bl > max(a['end_time'] - a['start_time'], 0):
